@@ -36,6 +36,12 @@ func situations(cf cfgSpec, thorough bool) []situation {
 		{"skipping-a-slot", []ops.Op{M}, pool, 1},
 		{"after-a-skipped-slot", []ops.Op{M, {K: "M", V: 1}}, pool, 0},
 	}
+	if thorough && n <= 4 {
+		// every slot position of the first two ticks
+		for k := 3; k <= 2*n+1; k++ {
+			out = append(out, situation{fmt.Sprintf("height-%d", k), rep(M, k-1), pool, 0})
+		}
+	}
 	if n <= 4 || thorough {
 		out = append(out,
 			situation{"tick-boundary", rep(M, n-1), pool, 0},
@@ -421,11 +427,7 @@ func runAccept(c *xs.Ctx, r *xs.Result, cfi int, gv *genesisVariant, sit situati
 		}
 		for _, e := range []error{errA, errB} {
 			if e != nil {
-				s := e.Error()
-				if len(s) > 60 {
-					s = s[:60]
-				}
-				r.Add("accept_rejection_reasons", s)
+				r.Add("accept_rejection_reasons", normReason(e.Error()))
 			}
 		}
 		if errA == nil {
@@ -494,4 +496,15 @@ func runAccept(c *xs.Ctx, r *xs.Result, cfi int, gv *genesisVariant, sit situati
 	r.Count("accept_situations_done", 1)
 }
 
-var _ = strings.Join
+// normReason cuts an error text before its first variable part (identifiers, numbers).
+func normReason(s string) string {
+	for _, sep := range []string{" {", " - expected", " Expected", "; length="} {
+		if i := strings.Index(s, sep); i >= 0 {
+			s = s[:i]
+		}
+	}
+	if len(s) > 70 {
+		s = s[:70]
+	}
+	return s
+}
